@@ -310,6 +310,113 @@ b("c08-epsilon-counter-by-head", "C08", "pyformlang/cfg/cfg.py",
   "                remaining_lists[symbol_impact][index_impact] -= 1\n                if remaining_lists[symbol_impact][index_impact] == 0:\n                    if symbol_impact == self._start_symbol:",
   "                remaining_lists[symbol_impact][-1] -= 1\n                if remaining_lists[symbol_impact][-1] == 0:\n                    if symbol_impact == self._start_symbol:",
   "counter-cell-per-production")
+# ----------------------------------------------------------------------------- C12
+b("c12-empty-ignores-start", "C12", CFGF,
+  "        return self._start_symbol not in self.get_generating_symbols()",
+  "        return not self.get_generating_symbols()", "is_empty-depends-on-start-symbol")
+b("c12-empty-uses-reachable", "C12", CFGF,
+  "        return self._start_symbol not in self.get_generating_symbols()",
+  "        return self._start_symbol not in self.get_reachable_symbols()", "is_empty-depends-on-generating")
+b("c12-bool-not-delegating", "C12", CFGF,
+  "        return not self.is_empty()", "        return bool(self._productions)", "bool-delegates-to-is_empty")
+b("c12-generating-runs-nullable-mode", "C12", CFGF,
+  "            self._generating_symbols = self._get_generating_or_nullable(False)",
+  "            self._generating_symbols = self._get_generating_or_nullable(True)", "mode-of-shared-fixpoint:get_generating_symbols")
+b("c12-nullable-default-mode", "C12", CFGF,
+  "            self._nullable_symbols = self._get_generating_or_nullable(True)",
+  "            self._nullable_symbols = self._get_generating_or_nullable()", "mode-of-shared-fixpoint:get_nullable_symbols")
+b("c12-nullable-returns-generating-cache", "C12", CFGF,
+  "            self._nullable_symbols = self._get_generating_or_nullable(True)\n        return self._nullable_symbols",
+  "            self._nullable_symbols = self._get_generating_or_nullable(True)\n        return self._generating_symbols",
+  "cache-field-is-its-own:get_nullable_symbols")
+b("c12-nullable-stores-in-generating-cache", "C12", CFGF,
+  "        if self._nullable_symbols is None:\n            self._nullable_symbols = self._get_generating_or_nullable(True)\n        return self._nullable_symbols",
+  "        if self._nullable_symbols is None:\n            self._generating_symbols = self._nullable_symbols = self._get_generating_or_nullable(True)\n        return self._nullable_symbols",
+  "cache-field-is-its-own:get_nullable_symbols")
+b("c12-terminals-seed-both-modes", "C12", CFGF,
+  "        if not nullable:\n            for terminal in self._terminals:\n                g_symbols.add(terminal)\n                to_process.append(terminal)\n",
+  "        for terminal in self._terminals:\n            g_symbols.add(terminal)\n            to_process.append(terminal)\n",
+  "terminals-do-not-seed-nullable")
+b("c12-terminals-never-seed", "C12", CFGF,
+  "        if not nullable:\n            for terminal in self._terminals:\n                g_symbols.add(terminal)\n                to_process.append(terminal)\n",
+  "", "terminals-seed-generating")
+b("c12-empty-bodies-not-seeded", "C12", CFGF,
+  "        for symbol in self._added_impacts:\n            if symbol not in g_symbols:\n                g_symbols.add(symbol)\n                to_process.append(symbol)\n\n        if not nullable:",
+  "        if not nullable:", "generating-fixpoint-depends-on-heads-of-empty-bodies")
+b("c12-fixpoint-no-mark", "C12", CFGF,
+  "                if self._remaining_lists[symbol_impact][index_impact] == 0:\n                    g_symbols.add(symbol_impact)\n                    to_process.append(symbol_impact)\n        # Fix",
+  "                if self._remaining_lists[symbol_impact][index_impact] == 0:\n                    to_process.append(symbol_impact)\n        # Fix",
+  "fixpoint-is-a-closure-worklist")
+b("c12-reachable-first-symbol-only", "C12", CFGF,
+  "            for symbol in production.body:\n                if not isinstance(symbol, Epsilon):\n                    temp.append(symbol)\n",
+  "            if production.body and not isinstance(production.body[0], Epsilon):\n                temp.append(production.body[0])\n",
+  "whole-body-followed")
+b("c12-reachable-ignores-head", "C12", CFGF,
+  "            temp = reachable_transition_d.setdefault(production.head, [])\n            for symbol in production.body:",
+  "            temp = reachable_transition_d.setdefault(self._start_symbol, [])\n            for symbol in production.body:",
+  "successors-keyed-by-head")
+b("c12-reachable-no-visited-test", "C12", CFGF,
+  "                if next_symbol not in r_symbols:\n                    r_symbols.add(next_symbol)\n                    to_process.append(next_symbol)\n        return r_symbols",
+  "                r_symbols.add(next_symbol)\n                to_process.append(next_symbol)\n        return r_symbols",
+  "reachability-is-a-closure-worklist")
+b("c12-finite-on-raw-productions", "C12", CFGF,
+  "        for production in normal.productions:\n            body = production.body\n            if len(body) == 2:\n                di_graph",
+  "        for production in self.productions:\n            body = production.body\n            if len(body) == 2:\n                di_graph",
+  "graph-built-from-normal-form")
+b("c12-finite-first-symbol-twice", "C12", CFGF,
+  "                di_graph.add_edge(production.head, body[1])\n", "                di_graph.add_edge(production.head, body[0])\n",
+  "edges-to-both-body-symbols")
+b("c12-finite-one-edge", "C12", CFGF,
+  "                di_graph.add_edge(production.head, body[0])\n                di_graph.add_edge(production.head, body[1])\n",
+  "                di_graph.add_edge(production.head, body[0])\n", "edges-to-both-body-symbols")
+b("c12-finite-tests-other-graph", "C12", CFGF,
+  "            nx.find_cycle(di_graph, orientation=\"original\")", "            nx.find_cycle(nx.DiGraph(), orientation=\"original\")",
+  "graph-reaches-the-cycle-test")
+b("c12-words-bound-zero-first", "C12", CFGF,
+  "        nullables = self.get_nullable_symbols()\n        if self.start_symbol in nullables:\n            yield []\n        if max_length == 0:\n            return\n",
+  "        if max_length == 0:\n            return\n        nullables = self.get_nullable_symbols()\n        if self.start_symbol in nullables:\n            yield []\n",
+  "empty-word-independent-of-bound")
+b("c12-words-empty-unconditional", "C12", CFGF,
+  "        if self.start_symbol in nullables:\n            yield []\n", "        if nullables:\n            yield []\n",
+  "empty-word-under-start-in-nullable")
+b("c12-words-no-bound-zero-return", "C12", CFGF,
+  "            yield []\n        if max_length == 0:\n            return\n", "            yield []\n", "no-word-for-bound-zero")
+b("c12-words-any-head", "C12", CFGF,
+  "                                gen_d[production.head][-1].append(new_word)\n                                if production.head == cfg.start_symbol:\n                                    yield new_word",
+  "                                gen_d[production.head][-1].append(new_word)\n                                yield new_word",
+  "words-only-for-the-start-symbol")
+b("c12-words-no-duplicate-test", "C12", CFGF,
+  "                            if new_word not in gen_d[production.head][-1]:\n                                was_modified = True\n                                gen_d[production.head][-1].append(new_word)\n                                if production.head == cfg.start_symbol:\n                                    yield new_word",
+  "                            if True:\n                                was_modified = True\n                                gen_d[production.head][-1].append(new_word)\n                                if production.head == cfg.start_symbol:\n                                    yield new_word",
+  "concatenated-words-duplicate-guarded")
+b("c12-words-loop-ignores-bound", "C12", CFGF,
+  "        while current_length <= max_length or max_length == -1:", "        while True:",
+  "concatenated-words-under-the-length-bound")
+b("c12-words-on-raw-productions", "C12", CFGF,
+  "        cfg = self.to_normal_form()\n        productions = cfg.productions\n        gen_d = {}",
+  "        cfg = self.to_normal_form()\n        productions = self.productions\n        gen_d = {}",
+  "enumeration-runs-on-the-normal-form")
+p("c12-p-reachable-extend", "C12", CFGF,
+  "            for symbol in production.body:\n                if not isinstance(symbol, Epsilon):\n                    temp.append(symbol)\n",
+  "            temp.extend(sym for sym in production.body if not isinstance(sym, Epsilon))\n")
+p("c12-p-finite-loop-over-body", "C12", CFGF,
+  "                di_graph.add_edge(production.head, body[0])\n                di_graph.add_edge(production.head, body[1])\n",
+  "                for target in body:\n                    di_graph.add_edge(production.head, target)\n")
+p("c12-p-finite-edges-from", "C12", CFGF,
+  "                di_graph.add_edge(production.head, body[0])\n                di_graph.add_edge(production.head, body[1])\n",
+  "                di_graph.add_edges_from([(production.head, body[0]), (production.head, body[-1])])\n")
+p("c12-p-empty-named", "C12", CFGF,
+  "        return self._start_symbol not in self.get_generating_symbols()",
+  "        productive = self.get_generating_symbols()\n        start_is_productive = self._start_symbol in productive\n        return not start_is_productive")
+p("c12-p-words-flag", "C12", CFGF,
+  "                            if new_word not in gen_d[production.head][-1]:\n                                was_modified = True",
+  "                            unseen = new_word not in gen_d[production.head][-1]\n                            if unseen:\n                                was_modified = True")
+p("c12-p-words-bound-positive", "C12", CFGF,
+  "        if max_length == 0:\n            return\n        cfg = self.to_normal_form()",
+  "        no_room = max_length == 0\n        if no_room:\n            return\n        cfg = self.to_normal_form()")
+p("c12-p-generating-kw", "C12", CFGF,
+  "            self._generating_symbols = self._get_generating_or_nullable(False)",
+  "            self._generating_symbols = self._get_generating_or_nullable(nullable=False)")
 # ----------------------------------------------------------------------------- C10
 b("c10-substitute-keeps-head", "C10", CFGF,
   "                productions.append(\n                    Production(new_variables_d_local[production.head],\n                               body))",
